@@ -329,7 +329,7 @@ class Check(PropertyCheck):
                     "mitmproxy.proxy.layers.tls:TLSLayer.receive_handshake_data", "mitmproxy.proxy.layers.tls:TLSLayer.on_handshake_error",
                     "mitmproxy.proxy.layers.tls:ServerTLSLayer.on_handshake_error", "mitmproxy.proxy.layers.tls:TLSLayer.start_tls",
                     "mitmproxy.proxy.tunnel:TunnelLayer._handle_event", "mitmproxy.proxy.tunnel:TunnelLayer._handshake_finished",
-                    "mitmproxy.addons.tlsconfig:TlsConfig.quic_start_server", "mitmproxy.addons.tlsconfig:_ip_or_dns_name", "mitmproxy.proxy.layers.quic._stream_layers:QuicLayer.start_tls",
+                    "mitmproxy.addons.tlsconfig:TlsConfig.quic_start_server", "mitmproxy.addons.tlsconfig:_ip_or_dns_name", "mitmproxy.proxy.layers.quic._stream_layers:QuicLayer.start_tls", "mitmproxy.proxy.layers.quic._stream_layers:QuicLayer.receive_handshake_data",
                     "mitmproxy.proxy.layers.quic._stream_layers:tls_settings_to_configuration"]
     trusted_base = ["OpenSSL (via pyOpenSSL): chain building, signature/time checks, X509_check_host/X509_check_ip semantics under the configured flags",
                     "cryptography.x509.verification as the independent chain verifier; Python ipaddress + idna codec",
